@@ -176,6 +176,14 @@ impl<M: Math> LowRankMassMatrix<M> {
         if (!col_all_finite(&vals.as_ref())) | (!mat_all_finite(&vecs.as_ref())) {
             return;
         }
+        // A scale whose reciprocal is not a positive finite number, or an eigenvalue that is
+        // not strictly positive, would make the transformation singular: such an estimate
+        // is invalid as well and leaves the previous transformation in place.
+        if stds.iter().any(|&s| !(s > 0.0 && s.recip().is_finite()))
+            | vals.iter().any(|&v| !(v > 0.0))
+        {
+            return;
+        }
 
         let mut stds_array = math.new_array();
         math.read_from_slice(&mut stds_array, stds.try_as_col_major().unwrap().as_slice());
